@@ -82,6 +82,22 @@ func writerLayout(p *Program, fn *ssa.Function) ([]layoutElem, string, []string)
 			if e == nil {
 				return
 			}
+			// a fixed-width field written through encoding/binary into a local array
+			if e.Op == "slice" && len(e.Args) > 0 && e.Args[0].Op == "alloc" {
+				for _, ev := range pr.Events {
+					if ev.Kind != "call" || ev.Callee == nil || !strings.HasPrefix(ev.Callee.String(), "(encoding/binary.bigEndian).PutUint") || len(ev.Args) < 3 {
+						continue
+					}
+					if sliceBase(ev.Args[1]).Key() != e.Args[0].Key() {
+						continue
+					}
+					fnName := "uint32ToBytes"
+					if strings.HasSuffix(ev.Callee.Name(), "64") {
+						fnName = "uint64ToBytes"
+					}
+					e = &Term{Op: "call", Name: fnName, Fn: p.Func("cache", fnName), Args: []*Term{stripConvTerm(ev.Args[2])}}
+				}
+			}
 			switch {
 			case e.Op == "call" && e.Fn != nil && e.Fn.Name() == "uint32ToBytes":
 				x := e.Args[0]
@@ -284,9 +300,21 @@ func ruleBoundedReads(c *Ctx) {
 	}
 	n := 0
 	bad := []string{}
+	// the two record decoders with every helper of the decoding scope simulated in
+	// place, so that a helper's parameters (a field width, a length just read) have
+	// the values its callers pass
+	roots := map[*ssa.Function]bool{}
+	for _, typ := range []string{"httpCache", "HTTPResponse"} {
+		if f := c.P.Method("cache", typ, "FromBytes"); f != nil {
+			roots[f] = true
+		}
+	}
 	for fn := range scope {
 		name := funcName(fn)
-		sim := c.P.Simulate(fn, SimConfig{}, func(pr *PathResult) {
+		if !roots[fn] {
+			continue
+		}
+		sim := c.P.Simulate(fn, SimConfig{Inline: func(callee *ssa.Function, d int) bool { return scope[callee] && !roots[callee] && d < 5 }}, func(pr *PathResult) {
 			where := name + " path [" + condString(pr.Conds) + "]"
 			for _, e := range pr.Events {
 				if e.Kind != "call" || e.Callee == nil {
@@ -304,6 +332,9 @@ func ruleBoundedReads(c *Ctx) {
 						if l.Atom.Op == "lt" && !l.Pol && l.Atom.Args[1].Key() == cnt.Key() && l.Atom.Args[0].Op == "call" && strings.HasPrefix(l.Atom.Args[0].Name, "(*bytes.Buffer).Len") && l.Atom.Args[0].Args[0].Key() == buf.Key() {
 							okHi = true // !(buffer.Len() < n)
 						}
+					}
+					if cnt.Op == "call" && strings.HasPrefix(cnt.Name, "(*bytes.Buffer).Len") && len(cnt.Args) == 1 && cnt.Args[0].Key() == buf.Key() {
+						okLo, okHi = true, true // Next(buffer.Len()): everything that is left
 					}
 					if !okLo {
 						bad = append(bad, "Buffer.Next(n) with n not known >= 0 (a length word >= 2^31 is negative on 32-bit builds and Next panics) in "+where)
